@@ -394,6 +394,7 @@ MANIFEST_META = {
     "level_text": "A truth map {blade: coefficient} is drawn first; the multivector is then built through one of 14 construction forms "
                   "(incl. keyword blades with arbitrary even/odd permuted spellings, custom bases, graded algebras) and every accessor "
                   "(attribute access with any spelling, items, containment, grade, asfullmv, map, filter) must reflect exactly the "
-                  "supplied coefficients; deliberately inconsistent inputs must raise.",
+                  "supplied coefficients; deliberately inconsistent inputs must raise."
+                  " Inconsistent by-name constructions (name= + keys= + grades= / convenience constructors) must raise too; reads must not change array-valued or inf coefficients.",
     "level_note": "Trusted: kv.refalg for spelling parity and canonical order. d<=4; spellings of grade<=4 blades.",
 }
